@@ -1057,6 +1057,11 @@ func (ex *Exec) instr(in ssa.Instruction) {
 	case *ssa.Go:
 		c.note("%s: go statement at %s skipped (asynchronous effects are outside the sequential contract)", ex.fn.Name(), relPos(ex.pos(in.Pos())))
 		c.trust("go statements skipped (effects of spawned goroutines not modelled)")
+		// the spawn itself is a call event for assert-call clauses: the arguments handed to the goroutine can be constrained
+		if callee := in.Call.StaticCallee(); callee != nil && !in.Call.IsInvoke() {
+			ex.curCall = &in.Call
+			ex.assertCalls(callee.String(), paramNames(callee), ex.argVals(&in.Call), in.Pos())
+		}
 	case *ssa.Send:
 		c.note("%s: channel send at %s modelled as no-op", ex.fn.Name(), relPos(ex.pos(in.Pos())))
 		c.trust("channel sends modelled as no-ops (blocking and delivery not modelled)")
